@@ -150,6 +150,12 @@ func tamperings(pool *KeyPool, k *Key, good string, tamper string) (out []struct
 				add(fmt.Sprintf("header object followed by %q", tail), join([]byte(body+tail), payload, sig), k.JWK)
 			}
 
+			// a further member whose value is null (behind and in front of the genuine ones): the decoded content changed
+			for _, name := range []string{"crit", "x5u", "typ", "zz"} {
+				add("further member "+name+" with value null", join([]byte(`{`+inner+`,"`+name+`":null}`), payload, sig), k.JWK)
+				add("further member "+name+" with value null in front", join([]byte(`{"`+name+`":null,`+inner+`}`), payload, sig), k.JWK)
+			}
+
 			add("further member crit", join([]byte(`{`+inner+`,"crit":["b64"],"b64":true}`), payload, sig), k.JWK)
 			add("further member b64 true", join([]byte(`{`+inner+`,"b64":true}`), payload, sig), k.JWK)
 			add("further member x", join([]byte(`{`+inner+`,"x":1}`), payload, sig), k.JWK)
@@ -313,6 +319,15 @@ func tamperings(pool *KeyPool, k *Key, good string, tamper string) (out []struct
 		m := cloneJWK(k.JWK)
 		m.Crv = "P-999"
 		add("crv P-999", good, m)
+
+		// the same material under the name of a curve of the same family that is not supported (or is another curve)
+		for _, crv := range []string{"X25519", "Ed448", "ed25519", "P-256K", "p-256", "secp256r1", "BLS12381_G2"} {
+			if crv != k.JWK.Crv {
+				m2 := cloneJWK(k.JWK)
+				m2.Crv = crv
+				add("crv "+crv, good, m2)
+			}
+		}
 	case "two_segments":
 		add("header.payload", parts[0]+"."+parts[1], k.JWK)
 		add("payload.signature", parts[1]+"."+parts[2], k.JWK)
@@ -592,6 +607,18 @@ func jwsReplay(args []string) {
 					if dp, derr := jwsutil.VerifyJWS(detached, key.JWK, jwsutil.WithJWSDetachedPayload(payload)); derr != nil || !bytes.Equal(dp.Payload, payload) {
 						fail("matching-key-does-not-verify", "detached payload: "+fmt.Sprint(derr), "verifies", nil, detached)
 						return
+					}
+
+					// another payload handed over with a JWS - detached, or carrying its own payload segment: whatever is returned
+					// as the payload is what the signature was verified over
+					other := append(append([]byte(nil), payload...), 'x')
+
+					for _, text := range []string{detached, good} {
+						if dp, derr := jwsutil.VerifyJWS(text, key.JWK, jwsutil.WithJWSDetachedPayload(other)); derr == nil {
+							fail("verify-verdict", "verified with ANOTHER payload handed over separately; payload returned: "+string(dp.Payload), map[string]interface{}{"verifies": false},
+								map[string]interface{}{"verifies": true}, text)
+							return
+						}
 					}
 
 					for _, bad := range []string{gp[0] + "." + gp[1] + "." + gp[1] + "." + gp[2], gp[0] + "..." + gp[2], gp[0] + ".a.b.c." + gp[2],
